@@ -84,7 +84,7 @@ func (w *World) planReplay(fr *Frame, exit *State, res []*Val) *replayPlan {
 	entry := fr.entry
 	for _, p := range fn.Params {
 		rp := replayParam{name: p.Name(), typ: p.Type()}
-		v := fr.params[p.Name()]
+		v := fr.vals[p]
 		switch {
 		case basicKind(p.Type()):
 			rp.kind = "basic"
